@@ -797,3 +797,27 @@ def family_child_order():
     out.append(_fam(4, [_g("swap", 2, 3), _g("rzz", 0, 1, params=[0.2]), _g("swap", 1, 2)], 3, exact=False, seed=11))
     out.append(_fam(4, [_g("swap", 2, 3), _g("rzz", 0, 1, params=[0.2]), _g("swap", 1, 2)], 2, wlo=False, exact=False, seed=12))
     return out
+
+
+def family_tight_gamma():
+    """The gamma limit is NOT a feasibility constraint: a search whose limit lies below the cost of the cuts the width limit needs is cut short
+    and falls back to the greedy answer.  Circuits that need one, two and three cuts (chains, a ring, a star, a repeated pair) under limits
+    that admit fewer wire cuts than needed (limit 1: none; 2..3.99: one; 4..7: two; 15.9: three of cost 4 but not 64), with wire cuts only,
+    gate cuts only and both kinds, backjump limits None / 0 / 10000.  Controls: the same circuits under a generous limit."""
+    cx = lambda *ps: [_g("cx", a, b) for a, b in ps]
+    chain3, chain4, chain5 = cx((0, 1), (1, 2)), cx((0, 1), (1, 2), (2, 3), (0, 1)), cx((0, 1), (1, 2), (2, 3), (3, 4))
+    ring = [_g("cz", 0, 1), _g("h", 1), _g("cx", 1, 2), _g("cx", 2, 3), _g("cz", 3, 0)]
+    star = [_g("cx", 0, 3), _g("x", 3), _g("cx", 1, 3), _g("cx", 2, 3), _g("cx", 3, 4)]
+    out = []
+    k = 0
+    for nq, prog, width, limits in ((3, chain3, 2, (1.0, 3.5)), (4, chain4, 2, (1.0, 4.0, 7.0)), (5, chain5, 3, (1.0, 2.0)),
+                                    (4, ring, 2, (3.0, 15.9)), (5, star, 2, (1.0, 7.0)), (5, star, 3, (3.99,))):
+        for mg in limits:
+            for glo, wlo in ((False, True), (True, False), (True, True)):
+                if (glo, wlo) != (False, True) and mg not in (1.0, limits[-1]):
+                    continue
+                out.append(_fam(nq, prog, width, glo=glo, wlo=wlo, seed=k, mg=mg, mb=(None, 0, 10000)[k % 3]))
+                k += 1
+        out.append(_fam(nq, prog, width, glo=False, wlo=True, seed=k, mg=1e6, mb=None))     # control
+        k += 1
+    return out
